@@ -16,7 +16,7 @@ TARGET = dict(
     execs=[dict(name="wakeup", harness="harness/C08_wakeup.c", repo=[], engine=["engine/sched.c", "engine/lin.c"], san="none",
                 extra=dict(quick=[["enum", "--template", t, "--bound", "2"] for t in _TEMPLATES],
                            thorough=[["enum", "--template", t, "--bound", "3"] for t in _TEMPLATES]))],
-    quick=dict(cases=150000, budget=35), thorough=dict(cases=2500000, budget=420),
+    quick=dict(cases=400000, budget=35), thorough=dict(cases=2500000, budget=420),
 )
 META = dict(
     technique="systematic concurrency testing: deterministic coroutine scheduler with virtual event descriptors over the real uqueue / udeal code, client protocols of the queue source/sink and of the dealer test, deadlock detection = lost wake-up, random / PCT / exhaustively enumerated bounded-preemption schedules",
